@@ -95,6 +95,9 @@ def jpath (j : Json) (k : String) : RelPath :=
   | _ => []
 def jpaths (j : Json) (k : String) : List RelPath :=
   (jstrs j k).map fun s => splitPath (if s == "" then "." else s)
+/-- a JSON integer (may be negative); 0 when absent -/
+def jint (j : Json) (k : String) : Int := (j.getObjValAs? Int k).toOption.getD 0
+def jhas (j : Json) (k : String) : Bool := (j.getObjVal? k).toOption.isSome
 def jopt (j : Json) (k : String) : Option String :=
   match (j.getObjVal? k).toOption with
   | some (.str s) => some s
@@ -363,6 +366,11 @@ def step (st : DState) (j : Json) : DState × Json :=
     let f := if jstr j "cmd" == "verify" then MhlModel.Paths.sfOfVerify else MhlModel.Paths.sfOfCreate
     (st, Json.mkObj [("r", f (jstr j "cwd") (jstr j "root") (jstr j "sf"))])
   | "hexenc" => (st, Json.mkObj [("s", hexOf (unhexStr (jstr j "hex")))])
+  -- civil-date rendering (MhlModel/Civil.lean)
+  | "civil" =>
+    let c := MhlModel.Civil.civilFromDays (jint j "days")
+    (st, Json.mkObj [("y", Json.num c.1), ("m", Json.num c.2.1), ("d", Json.num c.2.2)])
+  | "stamp" => (st, Json.mkObj [("r", MhlModel.Civil.stampOfEpoch (jint j "t"))])
   | "unhex" => (st, Json.mkObj [("hex", match unhex (jstr j "s").toList with
       | some b => Json.str (hexOf b) | none => Json.null)])
   | "chunks" =>
@@ -397,6 +405,11 @@ def step (st : DState) (j : Json) : DState × Json :=
     (st, Json.mkObj [("tree", elemJ e), ("parsed", Json.arr ((Xml.parseChain e).map fun c =>
       Json.mkObj [("seq", jopts c.seq), ("path", jopts c.path), ("fmt", jopts c.fmt), ("digest", jopts c.digest)]).toArray)])
   | "iso" =>
+    -- two request shapes share the name: {"local":N,"off":N} renders the ISO text of a local second count;
+    -- the older {"base":..,"transitions":..,"t":..} runs the zone logic of MhlModel/Time.lean
+    if jhas j "local" then
+      (st, Json.mkObj [("r", MhlModel.Civil.isoOfLocal (jint j "local") (jint j "off"))])
+    else
     -- zone: base offset and a list of [instant, offset] transitions (ascending)
     let base := (j.getObjValAs? Int "base").toOption.getD 0
     let trs : List (Int × Int) := (jarr j "transitions").toList.filterMap fun x =>
